@@ -191,7 +191,7 @@ func runC01(c *Check) {
 			c.Decide(ok, "R4", fmt.Sprintf("handlers.(*HeadersHandler).Handle#ClearBlockRequests-%d-after-ClearInSync", i+1), s.Pos(), "same-iteration event order", w,
 				"the in-sync flag is cleared before the request queue is dropped", "block requests are dropped for a fork while the node stays 'in sync': check() never polls for headers again and every later announcement is an unknown header – the node stalls below the peer's tip")
 		}
-		c.Min("R4", "ClearBlockRequests calls in Handle", len(cl), 2)
+		c.Min("R4", "ClearBlockRequests calls in Handle", len(cl), 1)
 
 		// ---- R8
 		var chr []ssa.Instruction
@@ -276,6 +276,7 @@ func runC01(c *Check) {
 	c.rulePopMovesLastSavedHash("R18")
 	c.ruleSavedHashMovesOnlyWithPop("R19")
 	c.ruleLastHashGuards("R20")
+	c.ruleResetClearsConnectionState("R21")
 	c.ruleFilledRequestsGoOut("R13", "handlers.(*HeadersHandler).Handle", "spynode.(*Node).processBlocks")
 }
 
